@@ -12,7 +12,7 @@ RULE = ('E1.31: valid data packets (current and rev2 framing) and discovery page
         'previous PDU in the block, blocks ending inside a length field, wrong vectors, zero CID x DMP address '
         'type/size nibbles, increment, number of slots (0, n-1..n+2, 512-514, 0xffff), start codes, options, '
         'priorities 199-201, universes x DMP data cut at 0/1/5/6/7/8 bytes x >512 slots (clamp) x DMP PDUs ending exactly at each field boundary with consistent outer lengths after a full packet for '
-        'the same/another universe x blocks of 2-3 PDUs per layer whose last PDU claims remaining-1/remaining/+1/+40/its untruncated length/block/block+1 with V/H inheritance flags varied, after a longer datagram x source names of LEN-2/LEN-1/LEN non-NUL bytes followed by non-zero bytes (decoded source name observed at HandlePDUData and the discovery callback) x E1.33 (RPT) / LLRP packets (root -> framing header -> RDM PDU) with the same '
+        'the same/another universe x blocks of 2-3 PDUs per layer whose last PDU claims remaining-1/remaining/+1/+40/its untruncated length/block/block+1 with V/H inheritance flags varied, after a longer datagram x 2-4 CIDs merged at one priority then a priority raise by the source tracked first/second/last, followed by datagrams from the raiser and the dropped sources (handler buffer, active priority and per-source buffers compared with the model after every datagram) x source names of LEN-2/LEN-1/LEN non-NUL bytes followed by non-zero bytes (decoded source name observed at HandlePDUData and the discovery callback) x E1.33 (RPT) / LLRP packets (root -> framing header -> RDM PDU) with the same '
         'length/flag/vector mutations x every truncation '
         'length 0-139 and around the end x datagrams of capacity-1/capacity/capacity+1/1600 bytes with consistent '
         'and inconsistent lengths x discovery pages with an odd payload length x 3-9 packet sequences from several '
@@ -453,6 +453,34 @@ def overclaim(rng, quick):
                         yield '0,1:none,2:none', [hx(prev.build() + pad), hx(q.build())]
 
 
+def prio_raise(rng, quick):
+    """yield (config, [datagrams]): 2-4 sources (CIDs) merged at one priority on one universe, then a datagram with a
+    HIGHER priority from the source tracked first / second / last (all other sources are dropped and the universe
+    outputs that source's NEW slots), then further datagrams from it and from the dropped ones"""
+    for kind in ('data', 'rev2'):
+        for nsrc in (2, 3, 4):
+            for who in range(nsrc):
+                seqs = [rng.randrange(100) for _ in range(nsrc)]
+                base = rng.choice([0, 100, 150])
+                dgs = []
+                def pk(i, prio, **kw):
+                    seqs[i] = (seqs[i] + 1) & 255
+                    n = rng.choice([1, 5, 24, 512])
+                    return hx(P(rng, kind=kind, uni=1, cid=cid_of(i + 1), prio=prio, seq=seqs[i], opts=0,
+                                slots=[rng.randrange(1, 256) for _ in range(n)], **kw).build())
+                for rnd in range(rng.choice([1, 2])):
+                    for i in range(nsrc):
+                        dgs.append(pk(i, base))
+                up = base + rng.choice([1, 50])
+                dgs.append(pk(who, up))                       # the raise
+                dgs.append(pk(who, up))                       # the raiser again
+                dgs.append(pk((who + 1) % nsrc, base))        # a dropped source at the old priority: ignored
+                dgs.append(pk((who + 1) % nsrc, up))          # joins at the new priority
+                if rng.random() < 0.5:
+                    dgs.append(pk(who, up - 1 if up > 0 else 0))   # the raiser lowers its priority
+                yield '0,1:%s' % rng.choice(['none', hx([9] * 512)]), dgs
+
+
 def odd_disc(rng):
     """discovery pages whose universe list has an odd number of bytes (fixes/02)"""
     v = P(rng, kind='disc', unis=[1, 2])
@@ -500,6 +528,8 @@ def gen_cases(rng, tier):
         for cfg, dgs in long_names(rng, quick):
             yield 'acn %s %s' % (cfg, ' '.join(dgs))
         for cfg, dgs in overclaim(rng, quick):
+            yield 'acn %s %s' % (cfg, ' '.join(dgs))
+        for cfg, dgs in prio_raise(rng, quick):
             yield 'acn %s %s' % (cfg, ' '.join(dgs))
     for _ in range(1 if quick else 10):
         for dgs in rpt_cases(rng, quick):
